@@ -42,6 +42,7 @@ Judge(e) ==
       checks == <<
         <<"C03", (~e.faulted) => ( MutexOK(e.backend, e.log) /\ noerr /\ lin /\ ChainOK(final) /\ e.other = e.other0 ) >>,
         <<"C11", (~e.faulted /\ snapops) => (noerr /\ lin) >>,
+        <<"C08", (~e.faulted /\ \E r \in rids : reqs[r].op = "GetChildVersion") => (noerr /\ lin) >>,
         <<"C01", (~e.faulted) => ChainOK(final) >>,
         <<"C02", (~e.faulted) =>
                    \A r, s \in accepted : (r # s /\ reqs[r].arg = reqs[s].arg) => seedcs.latest = Nil /\ FALSE >>,
